@@ -22,8 +22,6 @@ type FInput struct {
 	Ticks  int    `json:"ticks"`
 }
 
-var meIPs = []uint32{0x7f000001}
-
 type fgen struct {
 	n      uint32
 	frames []hx.B
@@ -298,6 +296,15 @@ func classAddr() FInput {
 	for _, proto := range []byte{0, 1, 2, 6, 17, 41, 47, 58, 255} {
 		g.add(ipFrame(macA, macB, g.sip(), loIP, proto, append(udpSeg(40000, 7, []byte("scan")), make([]byte, 8)...)))
 	}
+	// one source, the same ports, against every sensor address (and the same with ICMP and TCP)
+	s2 := g.sip()
+	for _, dip := range sensorIPs {
+		for _, dp := range []int{7, 9} {
+			g.add(ipFrame(macA, macB, s2, dip, 17, udpSeg(40000, dp, []byte("scan"))))
+		}
+		g.add(ipFrame(macA, macB, s2, dip, 1, icmpSeg(8, 8)))
+		g.add(withSum(ipFrame(macA, macB, s2, dip, 6, tcpSeg(40000, 80, 5, 2, nil)), true))
+	}
 	// the MAC addresses are part of the group: same source address, different hardware addresses
 	s := g.sip()
 	for _, m := range [][]byte{macA, macB, macC, macD, {0xff, 0xff, 0xff, 0xff, 0xff, 0xff}} {
@@ -436,8 +443,8 @@ func frameCoq(id int, in FInput, ob SObs) string {
 		fs = append(fs, hx.CoqBytes(f))
 	}
 	var me []string
-	for _, m := range meIPs {
-		me = append(me, fmt.Sprint(m))
+	for _, m := range sensorIPs {
+		me = append(me, fmt.Sprint(binary.BigEndian.Uint32(m[:])))
 	}
 	var sb strings.Builder
 	fmt.Fprintf(&sb, "(mkF %d %s\n   %s\n   %s)%%N", id, hx.CoqList(me, "N"), hx.CoqList(fs, "bytes"), coqTicks(ob))
